@@ -16,6 +16,16 @@ Record pdump := mkD { d_has : bool; d_act : list name; d_del : list name; d_pen 
    mapping of every claim of the universe *)
 Record aobs := mkO { o_panic : bool; o_out : Z; o_pools : list pdump; o_map : list (option name) }.
 
+(* part S: one step of a history on the real static provisioning controller (pool 1) *)
+Inductive hop :=
+| HProv (replicas : Z) (nfail : nat)   (* set replicas, Reconcile; nfail of the NodeClaim creates fail *)
+| HMark (k : kind) (c : name)
+| HDelete (c : name)                   (* API delete + Cluster.DeleteNodeClaim *)
+| HInfUpd (c : name).                  (* Cluster.UpdateNodeClaim from the API object *)
+
+(* after a step: NodeClaims of the pool in the API, GetNodeCount, reserved counter *)
+Record sobs := mkSO { so_api : Z; so_a : Z; so_d : Z; so_p : Z; so_res : Z }.
+
 Inductive case :=
 | CaseA (fixed : bool) (pools claims : list name) (ops : list op) (obs : list aobs)
 | CaseF (caps : list rl) (remaining : rl) (kept : list bool)          (* filterByRemainingResources *)
@@ -23,7 +33,8 @@ Inductive case :=
 | CaseE (limits : option rl) (usage : rl) (exceeded : bool)           (* Limits.ExceededBy *)
 | CaseSub (lhs rhs out : rl)                                          (* resources.Subtract *)
 | CaseP (exact : bool) (limits : rl) (existing : list rl) (claims : list (list itype))
-        (final_remaining : rl) (launched : list rl).                  (* Scheduler.Solve, one pool *)
+        (final_remaining : rl) (launched : list rl)                   (* Scheduler.Solve, one pool *)
+| CaseS (limit : Z) (hops : list hop) (sobs : list sobs).             (* static provisioning controller *)
 
 Definition set_eqb (a b : list name) : bool :=
   Nat.eqb (List.length a) (List.length b) && forallb (fun x => mem x b) a.
@@ -147,6 +158,44 @@ Definition checkP (exact : bool) (limits : rl) (existing : list rl) (claims : li
   (if launches_b rl_eqb claims launched then [] else ["corr:launch-not-an-option"]) ++
   (if within_b limits existing launched then [] else ["oracle:limit-exceeded"]).
 
+(* CreateNodeClaims for the n tickets starting at index i: create (the first nfail fail), in-line state
+   update, release. The real code runs them in parallel; the end state does not depend on the order. *)
+Fixpoint drive (L : name -> Z) (s : sys) (i n nfail : nat) : sys :=
+  match n with
+  | O => s
+  | S n' =>
+      let ok := match nfail with O => true | _ => false end in
+      let s1 := sstep L s (TkCreate i ok) in
+      let s2 := if ok then sstep L s1 (TkUpdate i) else s1 in
+      drive L (sstep L s2 (TkRelease i)) (S i) n' (pred nfail)
+  end.
+
+Definition hstep (L : name -> Z) (s : sys) (h : hop) : sys :=
+  match h with
+  | HProv r nf =>
+      let s1 := sstep L s (ProvBegin 1%nat r) in
+      drive L s1 (List.length (tks s)) (List.length (tks s1) - List.length (tks s)) nf
+  | HMark k c => sstep L s (SMark k 1%nat c)
+  | HDelete c => sstep L (sstep L s (ApiRemove c)) (InfDelete c)
+  | HInfUpd c => sstep L s (InfUpdate c false)
+  end.
+
+Definition sobs_matches (L : name -> Z) (s : sys) (o : sobs) : bool :=
+  let '(a, d, p) := counts (nps s) 1%nat in
+  negb (crashed s) && (api_count s 1%nat =? so_api o) && (a =? so_a o) && (d =? so_d o) && (p =? so_p o) &&
+  (reserved (nps s) 1%nat =? so_res o).
+
+Fixpoint checkS (L : name -> Z) (limit : Z) (s : sys) (hops : list hop) (obs : list sobs) : list string :=
+  match hops, obs with
+  | [], [] => []
+  | h :: hops', o :: obs' =>
+      let s' := hstep L s h in
+      (if sobs_matches L s' o then [] else ["corr:static-controller"]) ++
+      (if so_api o <=? limit then [] else ["oracle:node-limit"]) ++
+      checkS L limit s' hops' obs'
+  | _, _ => ["corr:length"]
+  end.
+
 Definition check_case (c : case) : list string :=
   match c with
   | CaseA fixed pools claims ops obs => checkA fixed pools claims st0 (empty_obs pools claims) ops obs
@@ -159,6 +208,7 @@ Definition check_case (c : case) : list string :=
   | CaseSub lhs rhs out =>
       if rl_eqb (subtract lhs rhs) out then [] else ["corr:Subtract"]
   | CaseP exact limits existing claims final launched => checkP exact limits existing claims final launched
+  | CaseS limit hops obs => checkS (fun _ => limit) limit (sys0) hops obs
   end.
 
 Definition check_all (cs : list (Z * case)) : list (Z * string) :=
